@@ -15,11 +15,20 @@ CATALOG = {
                     "extract": "ring_programs", "replay": "run_ring_program",
                     "limit": {"quick": 5000, "thorough": 400000}}],
     },
+    "C07": {
+        "drivers": [("order", {"quick": 500, "thorough": 20000}, {})],
+    },
     "C09": {
         "drivers": [("shape", {"quick": 800, "thorough": 30000}, {})],
     },
     "C10": {
         "drivers": [("reduce", {"quick": 500, "thorough": 20000}, {})],
+    },
+    "C18": {
+        "drivers": [("index", {"quick": 500, "thorough": 20000}, {})],
+    },
+    "C19": {
+        "drivers": [("lead", {"quick": 500, "thorough": 20000}, {})],
     },
     "C14": {
         "drivers": [("options", {"quick": 400, "thorough": 20000}, {})],
